@@ -630,6 +630,51 @@ func ctxOperator(m *model.Model, s *ob.Set, fn *ssa.Function, nan map[*ssa.Funct
 			}
 		}
 	}
+	// … on every path that is not the latched one: each return other than the latched return is
+	// behind that call (a shortcut that hands back a value computed some other way — c.Set(z, x)
+	// for the "easy" operands of Sqrt — skips the operation's own special cases, the invalid ones
+	// included), and the operation is the one the method is named after
+	if t2 == "" && op != nil {
+		var opCalls []*ssa.Call
+		for _, b := range fn.Blocks {
+			for _, in := range b.Instrs {
+				if call, ok := in.(*ssa.Call); ok && call.Call.StaticCallee() == op {
+					opCalls = append(opCalls, call)
+				}
+			}
+		}
+		var latchedBlock *ssa.BasicBlock
+		if latch != nil {
+			latchedBlock = latch.Block().Succs[latchEdge]
+		}
+		for _, b := range fn.Blocks {
+			if !live[b.Index] || b == latchedBlock || b == fn.Recover || len(b.Instrs) == 0 {
+				continue // (fn.Recover: where a recovered panic resumes — it returns the named result)
+			}
+			r, ok := b.Instrs[len(b.Instrs)-1].(*ssa.Return)
+			if !ok {
+				continue
+			}
+			behind := false
+			for _, oc := range opCalls {
+				if m.InstrDominates(oc, r) {
+					behind = true
+				}
+			}
+			if !behind {
+				t2 = m.InstrPos(r) + ": a result is returned on a path that does not go through the decimal operation " + m.FuncName(op)
+			}
+		}
+		if fn.Name() != "Set" && op.Name() != fn.Name() && t2 == "" {
+			t2 = "the decimal operation applied is " + m.FuncName(op) + ", not the one the method is named after"
+		}
+		// Set is the one operator that is safe for z == x: it copies x into z (all digits) and
+		// lets apply do the one rounding. apply(z).Set(x) rounds z — which may be x — first, and
+		// the self-assignment that follows reports the result Exact
+		if fn.Name() == "Set" && op.Name() != "Copy" && t2 == "" {
+			t2 = "Set rounds z through apply before x is read (" + m.FuncName(op) + " after apply): for z == x the operand is rounded first and the accuracy of that rounding is overwritten; the alias-safe form is c.apply(z.Copy(x))"
+		}
+	}
 	s.Check(t2 == "", "CTX(T2)", name, pos, "operates on c.apply(z)", t2)
 
 	// ---- T3 / T4
